@@ -2369,6 +2369,17 @@ void Validator::ValidatorImpl::validateMathMLElementsChildrenAndSiblings(const X
                 addMathmlIssue("Math has a 'cn' element of 'e-notation' type with no valid text node (representing a basic number), no 'sep' element, and/or no valid text node (representing an integer) as children.",
                                Issue::ReferenceRule::MATH_CN_FORMAT,
                                component);
+            } else {
+                // The significand and the exponent are valid on their own, but the number that they
+                // represent together must also be in the range of a double.
+                auto value = nonCommentChildNode(node, 0)->convertToStrippedString() + "e" + nonCommentChildNode(node, 2)->convertToStrippedString();
+                double doubleValue;
+
+                if (!convertToDouble(value, doubleValue)) {
+                    addMathmlIssue("Math has a 'cn' element of 'e-notation' type with the value '" + value + "' that is out of range of the 'double' type.",
+                                   Issue::ReferenceRule::MATH_CN_FORMAT,
+                                   component);
+                }
             }
         } else {
             addMathmlIssue("Math has a 'cn' element which is not of 'real' or 'e-notation' type.",
